@@ -233,7 +233,8 @@ SCENARIOS = dict(
                        'blob_two_b2_vec', 'blob_struct_b1', 'vec_inplace', 'obj_array_vec',
                        'dictfn_vec_net', 'pool_l3', 'gauss', 'wrap_net']),
     C05=dict(quick=['gauss_s', 'gauss_d', 'wrap_net', 'blob_two_obj', 'gauss_net', 'two_split', 'nlb',
-                    'b7_update', 'const:resume/0/2+resume/1/2'],
+                    'b7_update:resume/0/2+resume/1/2+slices/0/2+slices/1/2',
+                    'const:resume/0/2+resume/1/2'],
              thorough=['gauss', 'gauss_s', 'gauss_d', 'gauss_net', 'two', 'ring_net', 'half', 'wrap',
                        'wrap_net', 'g3_pool_s', 'blob_float', 'blob_int_vec', 'blob_two_obj',
                        'blob_array_pool', 'blob_struct_dictfn', 'blob_f32_inplace',
